@@ -38,6 +38,8 @@ type libRoot struct {
 	// a conflict declared on one of the two properties only
 	Excl  string `json:"excl"`
 	Other string `json:"other"`
+	// a property that has been disabled (without a reason text): using it is an error
+	Gone string `json:"gone"`
 }
 
 // buildLibScope builds a struct-mapped scope whose non-pointer object members carry defaults and whose
@@ -57,6 +59,11 @@ func buildLibScope() *schema.ScopeSchema {
 		"items":  prop(schema.NewListSchema(schema.NewRefSchema("libPlain", nil), nil, nil), false, nil),
 		"excl":   schema.NewPropertySchema(schema.NewStringSchema(nil, nil, nil), nil, false, nil, nil, []string{"other"}, nil, nil),
 		"other":  prop(schema.NewStringSchema(nil, nil, nil), false, nil),
+		"gone": func() *schema.PropertySchema {
+			p := prop(schema.NewStringSchema(nil, nil, nil), false, nil)
+			p.Disabled = true
+			return p
+		}(),
 	})
 	plain := schema.NewObjectSchema("libPlain", map[string]*schema.PropertySchema{
 		"name":     prop(schema.NewStringSchema(nil, nil, nil), false, nil),
@@ -103,6 +110,9 @@ func libValues(s Src) any {
 	}
 	if s.Choose("lv.ratio", 3) == 1 {
 		v["ratio"] = "12.5%"
+	}
+	if s.Choose("lv.gone", 5) == 4 {
+		v["gone"] = "still used" // rejected: the property is disabled
 	}
 	switch s.Choose("lv.excl", 5) {
 	case 1:
@@ -155,7 +165,7 @@ func planRace(s Src, maxWorkers int, global bool) *RacePlan {
 	if global || s.Choose("rc.lib", 3) == 0 {
 		p.Lib = true
 	} else {
-		p.Recipe = GenScope(s, GenOpts{MaxObjects: 3, MaxProps: 4, MaxDepth: 2, Prefix: "R", NoRules: true})
+		p.Recipe = GenScope(s, GenOpts{MaxObjects: 3, MaxProps: 4, MaxDepth: 2, Prefix: "R", NoRules: s.Choose("rc.norules", 2) == 0})
 		p.Rebuilt = s.Choose("rc.rebuilt", 3) == 0
 	}
 	nw := 2 + s.Choose("rc.workers", maxWorkers-1)
